@@ -254,8 +254,13 @@ def c04(pid, tier, seed):
     q = tier == "quick"
     finishes = ("finish", "finish_with_message", "finish_and_clear", "abandon", "abandon_with_message", "finish_using_style")
     fams = [
-        fam("fin_single", conf="single", W=4, H=6, D=3 if q else 4, BarOps=finishes + ("burst", "set_message", "inc", "drop", "iter"), MsgShapes=("a", "W1"),
+        fam("fin_single", conf="single", W=4, H=6, D=3 if q else 4, BarOps=finishes + ("burst", "set_message", "inc", "drop", "iter"), MsgShapes=("a", "W1", "e"),
             Tpls=("MnC",), Fins=("AndLeave", "AndClear", "Abandon", "WithMessage", "AbandonWithMessage"), Hz=20, DTs=(0,), M0="id"),
+        # a finished bar whose style is changed (set_style does not redraw) and that is dropped then: the drop changes nothing on screen
+        fam("fin_then_restyled", conf="single", W=6, H=6, D=4 if q else 5, BarOps=("finish", "abandon", "finish_with_message", "set_style", "drop", "tick"), MsgShapes=("a", "e"),
+            Tpls=("MnC", "M"), Fins=("AndLeave",), M0="id"),
+        fam("fin_multi_then_restyled", conf="multi", W=6, H=8, Multi=True, MaxBars=2, Pre=2, D=5 if q else 6, BarOps=("finish", "set_style", "drop", "tick"), MsgShapes=("a",),
+            Tpls=("MnC", "M"), Fins=("AndLeave",), M0="id", shards=12),
         # a single terminal failure somewhere before the end: the terminal works again, so the final frame must still be painted
         fam("fin_after_transient_fault", W=6, H=6, D=4 if q else 5, BarOps=finishes + ("tick", "drop", "set_message"), MsgShapes=("a",), Tpls=("MnC",), Fins=("AndLeave", "AndClear"), Faults=(1, 2, 4), M0="id"),
         fam("fin_multi_after_transient_fault", W=6, H=8, Multi=True, MaxBars=2, Pre=2, D=5 if q else 6, BarOps=("finish", "finish_and_clear", "abandon", "tick", "drop"), MsgShapes=("a",), Tpls=("M",),
